@@ -171,6 +171,16 @@ pub fn run_t<V: Scalar + Hash + PartialEq>(case: &Case, full: bool, fill: u8, ou
                     _ => unreachable!(),
                 };
                 (if b { "T" } else { "F" }).to_string()
+            } else if name == "itercount" {
+                // iteration summarised (very large sets): number of values yielded and their wrapping sum
+                let t = HashSet::<V>::from_bytes(unsafe { buf.static_ref() });
+                let mut n = 0u64;
+                let mut sum = 0u64;
+                for v in t.iter() {
+                    n += 1;
+                    sum = sum.wrapping_add(v.to_i() as u64);
+                }
+                format!("#{}:{}", n, sum)
             } else if name == "iter" {
                 format!("L{}", iter_sorted::<V>(unsafe { buf.static_ref() }))
             } else {
